@@ -84,6 +84,22 @@ template <typename Assertion>
 using namespace vh;
 using u64 = unsigned long long;
 
+// ---- which of the two contract macros this build defines (_contracts/check.hpp selects what TETL_PRECONDITION and
+//      TETL_PRECONDITION_SAFE expand to from exactly these two)
+#if defined(TETL_ENABLE_CONTRACT_CHECKS)
+static constexpr bool kChecks = true;
+#else
+static constexpr bool kChecks = false;
+#endif
+#if defined(TETL_ENABLE_CONTRACT_CHECKS_SAFE)
+static constexpr bool kSafe = true;
+#else
+static constexpr bool kSafe = false;
+#endif
+// the two macros used directly (harmless in every build mode: nothing happens behind the check)
+static int direct_precondition(long long v) { TETL_PRECONDITION(v != 0); return 1; }
+static int direct_precondition_safe(long long v) { TETL_PRECONDITION_SAFE(v != 0); return 1; }
+
 // run f with the handler armed, watching the bytes of `o`
 template <typename T, typename F>
 static void watch(Out& out, T const& o, F&& f)
@@ -192,6 +208,41 @@ struct FwdIt {
     friend auto operator!=(FwdIt a, FwdIt b) -> bool { return a.p != b.p; }
 };
 
+// a random access iterator that is NOT a pointer and not a reverse_iterator: a class with the random_access tag. The
+// headers treat it as a sized range (detail::RandomAccessIterator<It>): the length check comes before the first element
+template <typename Char>
+struct RaIt {
+    using iterator_category = etl::random_access_iterator_tag;
+    using value_type        = Char;
+    using difference_type   = std::ptrdiff_t;
+    using pointer           = Char const*;
+    using reference         = Char const&;
+    Char const* p;
+    auto operator*() const -> Char const& { return *p; }
+    auto operator->() const -> Char const* { return p; }
+    auto operator[](difference_type n) const -> Char const& { return p[n]; }
+    auto operator++() -> RaIt& { ++p; return *this; }
+    auto operator++(int) -> RaIt { auto t = *this; ++p; return t; }
+    auto operator--() -> RaIt& { --p; return *this; }
+    auto operator--(int) -> RaIt { auto t = *this; --p; return t; }
+    auto operator+=(difference_type n) -> RaIt& { p += n; return *this; }
+    auto operator-=(difference_type n) -> RaIt& { p -= n; return *this; }
+    friend auto operator+(RaIt a, difference_type n) -> RaIt { return RaIt{a.p + n}; }
+    friend auto operator+(difference_type n, RaIt a) -> RaIt { return RaIt{a.p + n}; }
+    friend auto operator-(RaIt a, difference_type n) -> RaIt { return RaIt{a.p - n}; }
+    friend auto operator-(RaIt a, RaIt b) -> difference_type { return a.p - b.p; }
+    friend auto operator==(RaIt a, RaIt b) -> bool { return a.p == b.p; }
+    friend auto operator!=(RaIt a, RaIt b) -> bool { return a.p != b.p; }
+    friend auto operator<(RaIt a, RaIt b) -> bool { return a.p < b.p; }
+    friend auto operator>(RaIt a, RaIt b) -> bool { return a.p > b.p; }
+    friend auto operator<=(RaIt a, RaIt b) -> bool { return a.p <= b.p; }
+    friend auto operator>=(RaIt a, RaIt b) -> bool { return a.p >= b.p; }
+};
+static_assert(etl::detail::RandomAccessIterator<RaIt<int>> and not etl::is_pointer_v<RaIt<int>>);
+static_assert(etl::detail::RandomAccessIterator<etl::reverse_iterator<int const*>>);
+static_assert(etl::detail::RandomAccessIterator<etl::array<int, 8>::reverse_iterator>);
+static_assert(not etl::detail::RandomAccessIterator<FwdIt<int>>);
+
 // ---- vector probes: initial content 1..k in a static_vector<int,4> / inplace_vector<int,4>
 // element type with a non-trivial destructor (selects static_vector's non-trivial storage); bytes comparable
 struct NT {
@@ -245,6 +296,17 @@ static void vec_probe(Toks& in, Out& impl, Out& ref)
     etl::static_vector<int, 4> v;
     for (int i = 1; i <= k; ++i) { v.push_back(i); }
     int src[8] = {7, 7, 7, 7, 7, 7, 7, 7};
+    etl::array<int, 8> srca{7, 7, 7, 7, 7, 7, 7, 7};
+    using RevIt = etl::reverse_iterator<int const*>;
+    // the n-element ranges of the sized iterator categories (|n| <= 8): array::rbegin()/rend(), reverse_iterator<T const*>,
+    // a random access class; n < 0: last lies |n| elements BEFORE first (last - first == n)
+    auto clamp8 = [](long long n) { return n < -8 ? -8LL : (n > 8 ? 8LL : n); };
+    auto arevF  = [&](long long n) { n = clamp8(n); return n >= 0 ? srca.rend() - n : srca.rend(); };
+    auto arevL  = [&](long long n) { n = clamp8(n); return n >= 0 ? srca.rend() : srca.rend() + n; };
+    auto rev2F  = [&](long long n) { n = clamp8(n); return RevIt(n >= 0 ? src + n : src); };
+    auto rev2L  = [&](long long n) { n = clamp8(n); return RevIt(n >= 0 ? src : src - n); };
+    auto raF    = [&](long long n) { n = clamp8(n); return RaIt<int>{n >= 0 ? src : src - n}; };
+    auto raL    = [&](long long n) { n = clamp8(n); return RaIt<int>{n >= 0 ? src + n : src}; };
     auto U     = [&](std::size_t i) { return i < ua.size() ? ua[i] : 0ULL; };
     u64 sz     = static_cast<u64>(k);
     u64 room   = 4 - sz;
@@ -263,6 +325,26 @@ static void vec_probe(Toks& in, Out& impl, Out& ref)
         else if (op == "irg_fwd") { v.insert(v.begin() + A(0), FwdIt<int>{src}, FwdIt<int>{src + A(1)}); }
         else if (op == "asr_fwd") { v.assign(FwdIt<int>{src}, FwdIt<int>{src + A(0)}); }
         else if (op == "ctor_rg_fwd") { etl::static_vector<int, 4> w(FwdIt<int>{src}, FwdIt<int>{src + A(0)}); sink = static_cast<long long>(w.size()); }
+        // sized ranges that are not pointer ranges (random access): the length is checked BEFORE the first element is
+        // appended, exactly as for pointers — insert, move_insert, assign, the range constructor
+        else if (op == "irg_rev") { v.insert(v.begin() + A(0), arevF(A(1)), arevL(A(1))); }
+        else if (op == "irg_rev2") { v.insert(v.begin() + A(0), rev2F(A(1)), rev2L(A(1))); }
+        else if (op == "irg_ra") { v.insert(v.begin() + A(0), raF(A(1)), raL(A(1))); }
+        else if (op == "mins") { v.move_insert(v.begin() + A(0), src, src + A(1)); }
+        else if (op == "mins_rev") { v.move_insert(v.begin() + A(0), arevF(A(1)), arevL(A(1))); }
+        else if (op == "mins_ra") { v.move_insert(v.begin() + A(0), raF(A(1)), raL(A(1))); }
+        else if (op == "mins_fwd") { v.move_insert(v.begin() + A(0), FwdIt<int>{src}, FwdIt<int>{src + (A(1) < 0 ? 0 : clamp8(A(1)))}); }
+        else if (op == "asr_rev") { v.assign(arevF(A(0)), arevL(A(0))); }
+        else if (op == "asr_rev2") { v.assign(rev2F(A(0)), rev2L(A(0))); }
+        else if (op == "asr_ra") { v.assign(raF(A(0)), raL(A(0))); }
+        else if (op == "ctor_rg_rev") { etl::static_vector<int, 4> w(arevF(A(0)), arevL(A(0))); sink = static_cast<long long>(w.size()); }
+        else if (op == "ctor_rg_ra") { etl::static_vector<int, 4> w(raF(A(0)), raL(A(0))); sink = static_cast<long long>(w.size()); }
+        // static_vector(c_array<T, Size>&&) (Size <= Capacity is a compile-time requirement): move_insert of Size elements,
+        // must never fire
+        else if (op == "ctor_carr") {
+            if (A(0) == 1) { int c[1] = {7}; etl::static_vector<int, 4> w(etl::move(c)); sink = static_cast<long long>(w.size()); }
+            else { int c[4] = {7, 7, 7, 7}; etl::static_vector<int, 4> w(etl::move(c)); sink = static_cast<long long>(w.size()); }
+        }
         else if (op == "era") { v.erase(v.begin() + A(0)); }
         else if (op == "err") { v.erase(v.begin() + A(0), v.begin() + A(1)); }
         else if (op == "rsz") { v.resize(static_cast<std::size_t>(U(0))); }
@@ -284,13 +366,17 @@ static void vec_probe(Toks& in, Out& impl, Out& ref)
     else if (op == "pop" || op == "fr" || op == "bk" || op == "cbk" || op == "cfr") { pre = sz >= 1; }
     else if (op == "icr" || op == "irv" || op == "emp") { pre = pos_ok(A(0)) && room >= 1; }
     else if (op == "inn") { pre = pos_ok(A(0)) && U(1) <= room; }
-    else if (op == "irg") { pre = pos_ok(A(0)) && A(1) >= 0 && static_cast<u64>(A(1)) <= room; }
+    else if (op == "irg" || op == "mins") { pre = pos_ok(A(0)) && A(1) >= 0 && static_cast<u64>(A(1)) <= room; }
+    else if (op == "irg_rev" || op == "irg_rev2" || op == "irg_ra" || op == "mins_rev" || op == "mins_ra") {
+        pre = pos_ok(A(0)) && A(1) >= 0 && static_cast<u64>(clamp8(A(1))) <= room;
+    }
+    else if (op == "asr_rev" || op == "asr_rev2" || op == "asr_ra" || op == "ctor_rg_rev" || op == "ctor_rg_ra") { pre = A(0) >= 0 && clamp8(A(0)) <= 4; }
     else if (op == "era") { pre = A(0) >= 0 && static_cast<u64>(A(0)) < sz; }
     else if (op == "err") { pre = A(0) >= 0 && A(0) <= A(1) && static_cast<u64>(A(1)) <= sz; }
     else if (op == "rsz" || op == "rsv" || op == "asn" || op == "ctor_n" || op == "ctor_nv") { pre = U(0) <= 4; }
     else if (op == "asr" || op == "ctor_rg") { pre = A(0) >= 0 && A(0) <= 4; }
     else if (op == "at" || op == "cat") { pre = U(0) < sz; }
-    if (op == "irg_fwd") {
+    if (op == "irg_fwd" || op == "mins_fwd") {
         bool const fits = static_cast<u64>(A(1)) <= room;
         ref.tok(pos_ok(A(0)) && fits ? "ok" : ((!pos_ok(A(0)) || room == 0) ? "contract 1" : "contract 0"));
         return;
@@ -361,27 +447,32 @@ static bool str_probe_n(long long k, std::string const& op, std::vector<u64> con
         using R = etl::reverse_iterator<C const*>;
         watch_ctor<S>(impl, [&](void* at) { auto* t = new (at) S(R(SRCC + A(0)), R(SRCC)); sink = static_cast<long long>(t->size()); }); pre = A(0) <= cap;
     }
+    else if (op == "ctor_ra") { watch_ctor<S>(impl, [&](void* at) { auto* t = new (at) S(RaIt<C>{SRCC}, RaIt<C>{SRCC + A(0)}); sink = static_cast<long long>(t->size()); }); pre = A(0) <= cap; }
     else if (op == "ctor_fwd") { watch_ctor<S>(impl, [&](void* at) { auto* t = new (at) S(FwdIt<C>{SRCC}, FwdIt<C>{SRCC + A(0)}); sink = static_cast<long long>(t->size()); }); pre = A(0) <= cap; }
     else if (op == "ctor_view") { SV v(SRCC, Z(0)); watch_ctor<S>(impl, [&](void* at) { auto* t = new (at) S(v); sink = static_cast<long long>(t->size()); }); pre = A(0) <= cap; }
     else if (op == "ctor_view_sub") {
         SV v(SRCC, Z(0)); watch_ctor<S>(impl, [&](void* at) { auto* t = new (at) S(v, Z(1), Z(2)); sink = static_cast<long long>(t->size()); });
         pre = A(1) <= A(0) && minu(A(2), A(0) - A(1)) <= cap;
     }
-    else if (op == "ctor_str_sub") { S o(SRCC, Z(0)); watch_ctor<S>(impl, [&](void* at) { auto* t = new (at) S(o, Z(1), Z(2)); sink = static_cast<long long>(t->size()); }); }
-    else if (op == "ctor_str_pos") { S o(SRCC, Z(0)); watch_ctor<S>(impl, [&](void* at) { auto* t = new (at) S(o, Z(1)); sink = static_cast<long long>(t->size()); }); }
+    // (str, pos[, count]): [string.cons] / [string.assign] / [string.append] pos <= str.size() (std throws out_of_range; the
+    // library goes through its own substr, which returns an empty string: KF-C05-string-substr-pos-unchecked)
+    else if (op == "ctor_str_sub") { S o(SRCC, Z(0)); watch_ctor<S>(impl, [&](void* at) { auto* t = new (at) S(o, Z(1), Z(2)); sink = static_cast<long long>(t->size()); }); pre = A(1) <= A(0); }
+    else if (op == "ctor_str_pos") { S o(SRCC, Z(0)); watch_ctor<S>(impl, [&](void* at) { auto* t = new (at) S(o, Z(1)); sink = static_cast<long long>(t->size()); }); pre = A(1) <= A(0); }
     else if (op == "asg_cstr2") { auto const* c = cstr(A(0)); run([&] { s.assign(c); }); pre = minu(A(0), SRCLEN) <= cap; }
     else if (op == "asg_rng") { run([&] { s.assign(SRCC, SRCC + A(0)); }); pre = A(0) <= cap; }
     else if (op == "asg_rng_rev") { run([&] { s.assign(SRCC + A(0), SRCC); }); pre = A(0) == 0; }
     else if (op == "asg_rev") { using R = etl::reverse_iterator<C const*>; run([&] { s.assign(R(SRCC + A(0)), R(SRCC)); }); pre = A(0) <= cap; }
+    else if (op == "asg_ra") { run([&] { s.assign(RaIt<C>{SRCC}, RaIt<C>{SRCC + A(0)}); }); pre = A(0) <= cap; }
     else if (op == "asg_fwd") { run([&] { s.assign(FwdIt<C>{SRCC}, FwdIt<C>{SRCC + A(0)}); }); pre = A(0) <= cap; }
     else if (op == "asg_view") { SV v(SRCC, Z(0)); run([&] { s.assign(v); }); pre = A(0) <= cap; }
     else if (op == "opeq_view") { SV v(SRCC, Z(0)); run([&] { s = v; }); pre = A(0) <= cap; }
     else if (op == "opeq_ch") { run([&] { s = C('z'); }); pre = 1 <= cap; }
-    else if (op == "asg_str_sub") { S o(SRCC, Z(0)); run([&] { s.assign(o, Z(1), Z(2)); }); }
+    else if (op == "asg_str_sub") { S o(SRCC, Z(0)); run([&] { s.assign(o, Z(1), Z(2)); }); pre = A(1) <= A(0); }
     // append(first, last) with iterators that are not pointers: reverse_iterator (random access: checked up front) and a
     // forward-only iterator (no up-front check: characters are appended until push_back's own precondition fires, so
     // the string IS modified when the handler runs unless it was already full — documented at append(first, last))
     else if (op == "app_rev") { using R = etl::reverse_iterator<C const*>; run([&] { s.append(R(SRCC + A(0)), R(SRCC)); }); pre = size + A(0) <= cap; }
+    else if (op == "app_ra") { run([&] { s.append(RaIt<C>{SRCC}, RaIt<C>{SRCC + A(0)}); }); pre = size + A(0) <= cap; }
     else if (op == "app_fwd") {
         run([&] { s.append(FwdIt<C>{SRCC}, FwdIt<C>{SRCC + A(0)}); });
         if (known) { ref.tok(size + A(0) <= cap ? "ok" : (size == cap ? "contract 1" : "contract 0")); }
@@ -437,7 +528,7 @@ static bool str_probe_n(long long k, std::string const& op, std::vector<u64> con
     else if (op == "app_str") { S o(SRCC, Z(0)); run([&] { s.append(o); }); pre = size + A(0) <= cap; }
     else if (op == "app_str_sub") {
         S o(SRCC, Z(0)); run([&] { s.append(o, Z(1), Z(2)); });
-        pre = A(1) > A(0) || size + minu(A(2), A(0) - A(1)) <= cap;
+        pre = A(1) <= A(0) && size + minu(A(2), A(0) - A(1)) <= cap;
     }
     else if (op == "app_rng") { run([&] { s.append(SRCC, SRCC + A(0)); }); pre = size + A(0) <= cap; }
     else if (op == "app_rng_rev") { run([&] { s.append(SRCC + A(0), SRCC); }); pre = A(0) == 0; }
@@ -705,10 +796,55 @@ static bool span_tsub(Span s, u64 off, u64 c, std::index_sequence<Is...>)
     return ((off == Is ? span_tsub_c<Is>(s, c) : false) || ...);
 }
 
+// ---- the macro selection of _contracts/check.hpp itself: `mode <checks 0/1> <safe 0/1> <sub-op> <arg>` is run only by the
+//      build whose two macros are exactly (checks, safe); every other build prints `skip`. All sub-ops are harmless in
+//      every build mode (nothing dangerous happens behind the check), so they also run in the build with NEITHER macro,
+//      where nothing may fire.  Documented (CMakeLists.txt: TETL_BUILD_CONTRACT_CHECKS "contract assertions",
+//      TETL_BUILD_CONTRACT_CHECKS_SAFE "all/slow contract assertions"): TETL_PRECONDITION is active iff either macro is
+//      defined, TETL_PRECONDITION_SAFE iff TETL_ENABLE_CONTRACT_CHECKS_SAFE is defined — whatever else is defined.
+static bool mode_probe(Toks& in, Out& impl, Out& ref)
+{
+    auto const c = in.num() != 0; auto const s = in.num() != 0; auto sub = in.str();
+    if (c != kChecks || s != kSafe) { impl.tok("skip"); ref.tok("na"); return true; }
+    bool const plain_active = c || s;
+    bool const safe_active  = s;
+    if (sub == "pre") { auto v = in.num(); watch_none(impl, [&] { sink = direct_precondition(v); }); doc(ref, !plain_active || v != 0); return true; }
+    if (sub == "safe") { auto v = in.num(); watch_none(impl, [&] { sink = direct_precondition_safe(v); }); doc(ref, !safe_active || v != 0); return true; }
+    if (sub == "arr" || sub == "carr") {
+        // array<int, 3>::operator[] (TETL_PRECONDITION_SAFE) inside a larger object: indices < 8 stay inside memory we own
+        auto i = in.sz();
+        if (i >= 8) { return false; }
+        struct Holder { etl::array<int, 3> a{1, 2, 3}; int pad[8]{}; } h;
+        if (sub == "arr") { watch(impl, h.a, [&] { sink = h.a[static_cast<std::size_t>(i)]; }); }
+        else { watch(impl, h.a, [&] { sink = static_cast<etl::array<int, 3> const&>(h.a)[static_cast<std::size_t>(i)]; }); }
+        doc(ref, !safe_active || i < 3);
+        return true;
+    }
+    if (sub == "day" || sub == "month") {
+        // chrono::day{d} / month{d} (TETL_PRECONDITION; the value is narrowed behind the check, nothing else happens)
+        auto d = static_cast<unsigned>(in.num());
+        watch_none(impl, [&] { if (sub == "day") { sink = static_cast<unsigned>(etl::chrono::day{d}); } else { sink = static_cast<unsigned>(etl::chrono::month{d}); } });
+        doc(ref, !plain_active || d <= 255U);
+        return true;
+    }
+    return false;
+}
+
 bool vh::run_case(std::string const& op, Toks& in, Out& impl, Out& ref)
 {
     // every probe names the check that fires (header + expression text)
     probe::with_expr = true;
+    if (op == "mode") { return mode_probe(in, impl, ref); }
+    // the build without any contract macro runs only the `mode` probes: every other probe passes violating arguments and
+    // would have undefined behaviour without the checks
+    if (!kChecks && !kSafe) { impl.tok("skip"); ref.tok("na"); return true; }
+    if (op == "strpos") {   // see driver.ml: the (str, pos, count) overloads with pos > str.size(), KF-C05-string-substr-pos-unchecked
+        auto flavour = in.str();
+        if (flavour == "str") { return str_probe(in, impl, ref); }
+        if (flavour == "wstr") { return wstr_probe(in, impl, ref); }
+        if (flavour == "u16str") { return u16str_probe(in, impl, ref); }
+        return false;
+    }
     if (op == "str") { return str_probe(in, impl, ref); }
     if (op == "wstr") { return wstr_probe(in, impl, ref); }
     if (op == "u16str") { return u16str_probe(in, impl, ref); }
